@@ -27,7 +27,9 @@ RULE = ("for each of the 256 opcodes: first code unit with all 256 high bytes x 
         "jumbo table), each presented exact / +1 / +2 trailing garbage units / truncated by one byte; a base encoding is "
         "non-trivial when some operand bit is set; base encodings are distinct by construction (enumeration index); "
         "history dimension: after an ODEX-mode sweep in the same process every unused opcode x 256 high bytes and every "
-        "valid opcode x 3 high bytes x 3 operand words are judged again in DEX mode")
+        "valid opcode x 3 high bytes x 3 operand words are judged again in DEX mode; opcode x DEX header version: for each "
+        "version 035..041 one generated DEX file with one method per (opcode, canonical / all-ones-registers encoding), read "
+        "back through DEX -> EncodedMethod -> DCode and judged like a direct decode")
 ASSUMPTIONS = [
     "oracle = gen/dalvik.py opcode table and decoder typed in from the Dalvik bytecode specification",
     "spec-invalid encodings (reserved high byte != 0 in 10x/20t/30t/32x, 35c/45cc count > 5, 45cc count 0) may be rejected "
@@ -38,6 +40,8 @@ ASSUMPTIONS = [
     "history dimension: 'an ODEX-mode linear sweep and an optimized-instruction decode ran earlier in the same process' "
     "(executed in a forked child so it cannot leak into other cases; the witness carries the history and replay runs it); "
     "other process histories are not explored",
+    "opcode x DEX header version: files are written by gen/dexgen.py (trusted writer); call-site and method-handle "
+    "sections cannot be emitted, those index operands are 0; the decoding must not depend on the header version",
 ]
 MANIFEST = {
     "engine": "E1-product",
@@ -171,6 +175,13 @@ def judge(env, op, buf):
                                        "get_instruction(0x%02x, %s) raised InvalidInstruction; valid %r"
                                        % (op, buf.hex(), ref))]
         return "rejected-nonstrict", v
+    return _judge_decoded(env, ins, ref, op, buf)
+
+
+def _judge_decoded(env, ins, ref, op, buf):
+    """ins: what the library decoded from buf; ref: the reference decoding.  -> (outcome, [(key, msg)])"""
+    fmt = ref.fmt
+    v = []
     # ---- decoded: length and round trip are always required
     want_raw = bytes(buf[:ref.length])
     try:
@@ -347,6 +358,114 @@ def judge_odex(env, op16, buf):
     return ("decoded", fmt, extra), v
 
 
+# ----------------------------------------------------------------------------------- opcode x DEX header version
+DEX_VERSIONS = ("035", "036", "037", "038", "039", "040", "041")
+_DV_CLS = "La/T;"
+
+
+def _dv_args(op, variant, ix):
+    """Arguments for gen.dalvik.enc: canonical (variant 0) / all-ones registers (variant 1) encoding of opcode op whose
+    pool index refers to an entry that exists in the generated file (call sites and method handles cannot be emitted
+    by gen/dexgen: index 0)."""
+    name, fmt, kind = D.OPC[op]
+    idx = {None: 0, "string": lambda: ix.string("s"), "type": lambda: ix.type(_DV_CLS),
+           "field": lambda: ix.field(_DV_CLS, "f", "I"), "method": lambda: ix.method(_DV_CLS, "callee", "V", ()),
+           "proto": lambda: ix.proto("V", ()), "method+proto": lambda: ix.method(_DV_CLS, "callee", "V", ()),
+           "call_site": lambda: 0, "method_handle": lambda: 0}[kind]
+    idx = idx() if callable(idx) else idx
+    one = variant == 1
+    r4, r8, r16 = (15, 255, 0xffff) if one else (1, 1, 1)
+    table = {
+        "10x": (), "12x": (r4, 2 if not one else 15), "11n": (r4, -3), "11x": (r8,), "10t": (3,), "20t": (3,), "30t": (3,),
+        "22x": (r8, r16), "21t": (r8, -2), "21s": (r8, -5), "21h": (r8, 0x8001), "21c": (r8, idx),
+        "23x": (r8, 2 if not one else 255, 3 if not one else 255), "22b": (r8, 2 if not one else 255, -7),
+        "22t": (r4, 2 if not one else 15, 3), "22s": (r4, 2 if not one else 15, -9), "22c": (r4, 2 if not one else 15, idx),
+        "32x": (r16, 2 if not one else 0xffff), "31t": (r8, 3), "31i": (r8, -0x12345), "31c": (r8, idx),
+        "35c": (idx, [1, 2] if not one else [15] * 5), "3rc": (idx, 1, 2) if not one else (idx, 0xff01, 0xff),
+        "51l": (r8, -0x123456789),
+    }
+    if fmt == "45cc":
+        return (idx, [1, 2] if not one else [15] * 5, ix.proto("V", ()))
+    if fmt == "4rcc":
+        return ((idx, 1, 2) if not one else (idx, 0xff01, 0xff)) + (ix.proto("V", ()),)
+    return table[fmt]
+
+
+def _dv_methods():
+    """[(method name, opcode, variant)]: one method per (opcode, variant); unused opcodes get one method each."""
+    out = []
+    for op in range(256):
+        for variant in ((0, 1) if op in D.OPC else (0,)):
+            out.append(("o%02x_%d" % (op, variant), op, variant))
+    return out
+
+
+def build_version_dex(version, only=None):
+    from gen import dexgen as G
+
+    def code(op, variant):
+        if op not in D.OPC:
+            return lambda ix: bytes((op, 0))
+        return lambda ix: D.enc(op, *_dv_args(op, variant, ix))
+    ms = [G.Method("callee", "V", (), G.ACC_STATIC | G.ACC_PUBLIC, G.Code(1, 0, 0, D.enc("return-void")))]
+    for name, op, variant in _dv_methods():
+        if only is None or (op, variant) in only:
+            ms.append(G.Method(name, "V", (), G.ACC_STATIC | G.ACC_PUBLIC, G.Code(256, 0, 0, code(op, variant))))
+    return G.build(G.Dex([G.Class(_DV_CLS, sfields=[G.Field("f", "I", G.ACC_STATIC | G.ACC_PUBLIC)], dmethods=ms)],
+                         version=version.encode()))
+
+
+def judge_version(env, version, only=None):
+    """One generated DEX file with header version `version`, one static method per (opcode, variant); every method's
+    single instruction is read back through DEX -> EncodedMethod -> DalvikCode -> DCode.get_instructions and compared
+    with the reference exactly like a directly decoded one.  The opcode table does not depend on the file version.
+    -> [(op, variant, outcome, [(key, msg)])]"""
+    dex = env.dex
+    raw = build_version_dex(version, only)
+    out = []
+    try:
+        vm = dex.DEX(raw)
+        methods = {m.get_name(): m for m in vm.get_classes()[0].get_methods()}
+    except Exception as e:     # noqa
+        return [(0, 0, "load-failed", [("dex-version:%s:load" % version, "DEX %s does not load: %s: %s" % (version, type(e).__name__, e))])]
+    for name, op, variant in _dv_methods():
+        if only is not None and (op, variant) not in only:
+            continue
+        fmt = D.OPC[op][1] if op in D.OPC else "unused"
+        pre = "dex-version:%s:" % version
+        m = methods[name]
+        dc = m.get_code()
+        n = dc.insns_size * 2
+        off = dc.get_off() + 16
+        buf = bytes(raw[off:off + n])
+        tag = "DEX %s, method %s, code %s" % (version, name, buf.hex())
+        try:
+            got = list(dc.get_bc().get_instructions())
+            exc = None
+        except dex.InvalidInstruction as e:
+            got, exc = None, e
+        except Exception as e:     # noqa
+            out.append((op, variant, "exc", [(pre + fmt + ":decode-exception", "%s: %s: %s" % (tag, type(e).__name__, e))]))
+            continue
+        if op not in D.OPC:
+            if exc is None:
+                out.append((op, variant, "accepted-unused", [(pre + "unused:accepted", "%s: unused opcode decoded as %r"
+                                                            % (tag, [_safe(i.get_name) for i in got]))]))
+            else:
+                out.append((op, variant, "rejected-unused", []))
+            continue
+        ref = D.decode(buf)
+        if exc is not None:
+            out.append((op, variant, "rejected-valid", [(pre + fmt + ":valid-rejected", "%s: valid %r rejected: %s" % (tag, ref, exc))]))
+            continue
+        if len(got) != 1:
+            out.append((op, variant, "count", [(pre + fmt + ":length", "%s: %d instructions for one %s" % (tag, len(got), ref.name))]))
+            continue
+        outcome, viols = _judge_decoded(env, got[0], ref, op, buf)
+        out.append((op, variant, outcome, [(pre + k, "%s: %s" % (tag, msg)) for k, msg in viols]))
+    return out
+
+
 # ----------------------------------------------------------------------------------- the space
 def _n_units(op):
     return D.units(D.OPC[op][1]) if op in D.OPC else 1
@@ -375,6 +494,8 @@ def space(ctx):
          "presentations": ["exact", "+1 garbage unit", "+2 garbage units", "truncated by one byte"],
          "base_encodings_by_units": {str(k): v for k, v in sorted(per_units.items())},
          "base_encodings": sum(per_units.values())}
+    d["dex_header_versions"] = {"versions": list(DEX_VERSIONS), "opcodes": 256, "methods_per_file": len(_dv_methods()),
+                                "cases": len(DEX_VERSIONS) * len(_dv_methods())}
     d["histories"] = {h: {"what": t, "rejudged_base_encodings": len(D.UNUSED) * 256 + len(D.OPC) * len(HIST_HI) * len(HIST_UNITS)}
                       for h, t in HISTORIES.items()}
     if ctx.thorough:
@@ -404,6 +525,7 @@ def shards(ctx):
     if cur:
         out.append(("ops", tuple(cur), 0, 256))
     out += [("hist", h, part) for h in sorted(HISTORIES) for part in ("unused", "valid")]
+    out += [("dexver", v) for v in DEX_VERSIONS]
     if ctx.thorough:
         out += [("odex", op16) for op16 in range(0xf2ff, 0x10000, 0x100)]
     return out
@@ -514,7 +636,18 @@ def _run_shard(ctx, shard):
     env = Env()
     acc = Acc()
     acc._oc = set()
-    if shard[0] == "hist":
+    if shard[0] == "dexver":
+        ver = shard[1]
+        for op, variant, outcome, viols in judge_version(env, ver):
+            acc.n += 1
+            acc.nt_disjoint += 1
+            acc.count("dex_version_cases")
+            acc._oc.add(("dexver", ver) + (outcome if isinstance(outcome, tuple) else (outcome,)))
+            for key, msg in viols:
+                acc.violation(key, {"dex_version": ver, "op": op, "variant": variant}, msg)
+        if ver == "038":
+            acc.sample({"dex_version": ver, "methods": len(_dv_methods()), "each": "one instruction of one opcode, canonical / all-ones registers"})
+    elif shard[0] == "hist":
         _, hist, part = shard
         before = set()
         for op, base in hist_cases(part):           # same process, before the history: what fails anyway
@@ -566,6 +699,10 @@ def _run_shard(ctx, shard):
 
 def replay(ctx, w):
     env = Env()
+    if "dex_version" in w:
+        res = judge_version(env, w["dex_version"], only={(w["op"], w["variant"])})
+        viols = [kv for r in res for kv in r[3]]
+        return "\n".join("%s: %s" % kv for kv in viols) or None
     buf = bytes.fromhex(w["buf"])
     if w.get("history"):
         run_history(env, w["history"])          # the replay process is fresh: execute the history first
@@ -594,6 +731,10 @@ def finalize(ctx, acc):
     if acc.extra.get("after-odex-sweep:history-instructions", 0) < 2:
         acc.note("the ODEX-mode history sweep itself yielded fewer than 2 instructions per run (ODEX decoding is not judged)")
     want += 4 * hb
+    dv = len(DEX_VERSIONS) * len(_dv_methods())
+    if acc.extra.get("dex_version_cases", 0) != dv:
+        acc.harness_error("opcode x DEX version: %d of %d cases" % (acc.extra.get("dex_version_cases", 0), dv))
+    want += dv
     if acc.n != want:
         acc.harness_error("evaluations %d != 4 presentations x base encodings = %d" % (acc.n, want))
     if acc.extra.get("opcodes", 0) != 256:
